@@ -134,10 +134,14 @@ class ExecRun:
         self.deadlock = False
         self.step_limit = False
         self.aborted: set[int] = set()
+        self.args_modified: dict[int, Any] = {}
 
 
 def execute_all(desc: dict[str, Any], partitions: dict[int, Any], chooser: Any,
-                mode: str = "refeval", progs: dict[int, Any] | None = None) -> ExecRun:
+                mode: str = "refeval", progs: dict[int, Any] | None = None,
+                shared_args: dict[int, Any] | None = None) -> ExecRun:
+    """*shared_args*: rank -> dict kept by the CALLER across executions (a time-stepping
+    code reuses its input dictionary); filled on first use, must come back unchanged."""
     simmpi.install()
     from pytato.distributed.execute import execute_distributed_partition
     R = desc["nranks"]
@@ -161,10 +165,25 @@ def execute_all(desc: dict[str, Any], partitions: dict[int, Any], chooser: Any,
         else:
             pp = part_programs(p, er.part_log[r], mode)
         names = {n for part in p.parts.values() for n in part.user_input_names}
-        args = InputArgs({k: np.array(v, copy=True) for k, v in iv.items() if k in names},
-                         er.ctx_log[r])
+        if shared_args is not None:
+            if r not in shared_args:
+                shared_args[r] = InputArgs({k: np.array(v, copy=True) for k, v in iv.items()
+                                            if k in names}, er.ctx_log[r])
+            args = shared_args[r]
+            args._log = er.ctx_log[r]
+            before = {k: np.array(v, copy=True) for k, v in dict.items(args)}
+        else:
+            args = InputArgs({k: np.array(v, copy=True) for k, v in iv.items() if k in names},
+                             er.ctx_log[r])
+            before = None
         res = execute_distributed_partition(p, pp, None, comm, input_args=args)
         er.outputs[r] = {k: np.asarray(v) for k, v in res.items()}
+        if before is not None:
+            now = dict(dict.items(args))
+            if set(now) != set(before) or any(
+                    not np.array_equal(np.asarray(now[k]), before[k]) for k in before):
+                er.args_modified[r] = (sorted(set(before) - set(now)),
+                                       sorted(set(now) - set(before)))
         return res
     world.run([fn] * R)
     er.errors = dict(world.errors)
